@@ -201,19 +201,27 @@ def r2(ctx, fs):
                             key = _loc_key(loc_t)
                         disc = '%s[%s]' % (loc_short, show(key) if not isinstance(key, tuple) or key and isinstance(key[0], str) else ','.join(show(k) for k in key))
                         ctx.instance(rid, [f.id, disc], {'setter': f.id, 'store': src(st.node), 'location': show(loc_t), 'saves_before': [show(sv[0]) for sv in saves]})
-                        # guard state on this path
+                        # guard state on this path: the path conditions are atomic decisions, each a literal (term, polarity)
+                        lits = []
+                        for ct, pol in conds:
+                            if pol:
+                                lits.extend(_conjuncts(ct))
+                            else:
+                                lits.append(_neg(ct))
                         has_layer = None
                         unsaved = None
-                        for ct, pol in conds:
-                            for cj in (_conjuncts(ct) if pol else [ct]):
-                                if _is_not_empty(cj, layers_field):
-                                    has_layer = pol if has_layer is None else has_layer
-                                if _is_not_count(cj, layers_field, mapname, key):
-                                    unsaved = pol if unsaved is None else unsaved
-                            if pol is False:
-                                # a failed conjunction: cannot tell which conjunct failed -> the save is legitimately skipped
-                                cjs = list(_conjuncts(ct))
-                                if any(_is_not_empty(x, layers_field) for x in cjs) or any(_is_not_count(x, layers_field, mapname, key) for x in cjs):
+                        for l in lits:
+                            if _is_not_empty(l, layers_field):
+                                has_layer = True if has_layer is None else has_layer
+                            elif _is_not_empty(_neg(l), layers_field):
+                                has_layer = False
+                            if _is_not_count(l, layers_field, mapname, key):
+                                unsaved = True if unsaved is None else unsaved
+                            elif _is_not_count(_neg(l), layers_field, mapname, key):
+                                has_layer = False       # already saved in this layer: nothing to log
+                            elif isinstance(l, tuple) and l[0] == '!' and isinstance(l[1], tuple) and l[1][0] == '&&':
+                                # a failed conjunction that was not decomposed: cannot tell which conjunct failed
+                                if any(_is_not_empty(x, layers_field) or _is_not_count(x, layers_field, mapname, key) for x in _conjuncts(l[1])):
                                     has_layer = False
                         matching = [sv for sv in saves if _same_key(sv[0], key)]
                         if has_layer is False:
@@ -226,9 +234,9 @@ def r2(ctx, fs):
                         sv = matching[-1]
                         ctx.instance(rid3, [f.id, disc], {'setter': f.id, 'save': src(sv[3]), 'how': sv[2], 'guarded_by_not_count': unsaved})
                         # the "already saved?" test must look the very key of the save up: a test on another key skips the save of an unsaved location
-                        for ct, pol in conds:
-                            if pol:
-                                for cj in _conjuncts(ct):
+                        for cj in lits:
+                            if True:
+                                if True:
                                     gk = _count_guard_key(cj, layers_field, mapname)
                                     if gk is not None and gk != key:
                                         ctx.finding(rid3, f.id, disc + '/guard-key', '%s: the save of %s is skipped when key %s is already in the undo layer, but the location saved and overwritten has key %s: '
@@ -284,6 +292,12 @@ def _is_not_count(t, layers_field, mapname, key):
         if not (isinstance(obj, tuple) and obj[0] == '.' and obj[2] == mapname):
             return False
     return len(c) == 4 and _key_terms(c[3]) == key
+
+
+def _neg(t):
+    if isinstance(t, tuple) and len(t) == 2 and t[0] == '!':
+        return t[1]
+    return ('!', t)
 
 
 def _mentions(t, name):
